@@ -166,3 +166,36 @@ def _c01_released_unread_will_close(f: Failure) -> bool:
         and all(s_.get("will_close") is True and s_.get("disposal") in ("release-unread", "read-part-release") for s_ in served)
         and o.get("preload") is False
     )
+
+
+# ---------------------------------------------------------------------------------- C15 -------
+@finding("C15", "port-zero-treated-as-default")
+def _c15_port_zero(f: Failure) -> bool:
+    """An explicit port 0 is falsy: PoolManager.connection_from_host ('if not port') and the pools replace it by
+    the scheme default, so http://h:0/ is dialled (and announced, and tunnelled) on port 80 / 443."""
+    o = f["observed"] or {}
+    if str(o.get("port_in_url")) != "0":
+        return False
+    if f["kind"] == "dial-address-wrong":
+        return o.get("got", [None, None])[1] in (80, 443) and o.get("want", [None, None])[1] == 0 and o.get("got", [None])[0] == o.get("want", [None])[0]
+    if f["kind"] == "host-header-wrong":
+        return o.get("port_dropped") is True
+    if f["kind"] == "connect-authority-wrong":
+        return str(o.get("got", "")).rsplit(":", 1)[-1] in ("80", "443")
+    return False
+
+
+@finding("C15", "tunnel-ipv6-host-header-malformed")
+def _c15_tunnel_ipv6(f: Failure) -> bool:
+    """Inside a CONNECT tunnel to an IPv6 literal the request carries 'Host: [[::1]]' (or '[[fe80::1]' with a zone):
+    urllib3 hands the bracketed tunnel host to http.client, which (3.12.1) brackets it again."""
+    o = f["observed"] or {}
+    return f["kind"] == "host-header-wrong" and o.get("route") == "tunnel" and o.get("host_kind") == "ipv6" and o.get("double_bracket") is True
+
+
+@finding("C15", "forwarded-host-header-keeps-ipv6-zone")
+def _c15_forward_zone(f: Failure) -> bool:
+    """For a request forwarded through a proxy the Host header is built from the URL's netloc, zone id included
+    ('Host: [fe80::1%eth0]'); direct requests (http.client) drop the zone."""
+    o = f["observed"] or {}
+    return f["kind"] == "host-header-wrong" and o.get("route") == "forward" and o.get("host_kind") == "ipv6" and o.get("zone_in_url") is True and o.get("got_has_zone") is True and str(o.get("port_in_url")) != "0"
